@@ -867,7 +867,8 @@ pub fn apply_variant(p: &Parts, v: &Variant) -> Parts {
 		Variant::HostCase => {
 			if let Some(a) = &q.authority {
 				let mut ap = split_authority(a);
-				if !ap.host.starts_with('[') && !ap.host.contains('%') {
+				// IP-literals included: `[::a]` and `[::A]` are different hosts for this library (no RFC 5952 folding)
+				if !ap.host.contains('%') {
 					ap.host = ap
 						.host
 						.chars()
